@@ -112,10 +112,41 @@ func c12Const(e *Env) {
 		var sizeVar *types.Var
 		for _, st := range fi.Decl.Body.List {
 			if is, ok := st.(*ast.IfStmt); ok {
-				be0, _ := unparen(is.Cond).(*ast.BinaryExpr)
-				// `size >= int(AbortIndex)` or, with swapped operands, `int(AbortIndex) <= size`
+				cnd := unparen(is.Cond)
+				be0, _ := cnd.(*ast.BinaryExpr)
+				// `size >= int(AbortIndex)`; with swapped operands `int(AbortIndex) <= size`; negated
+				// `!(size < int(AbortIndex))`
+				if u, isU := cnd.(*ast.UnaryExpr); isU && u.Op == token.NOT {
+					if inner, isB := unparen(u.X).(*ast.BinaryExpr); isB {
+						switch inner.Op {
+						case token.LSS:
+							be0 = &ast.BinaryExpr{X: inner.X, Op: token.GEQ, Y: inner.Y, OpPos: inner.OpPos}
+						case token.GTR:
+							be0 = &ast.BinaryExpr{X: inner.Y, Op: token.GEQ, Y: inner.X, OpPos: inner.OpPos}
+						}
+					}
+				}
 				if be0 != nil && be0.Op == token.LEQ {
 					be0 = &ast.BinaryExpr{X: be0.Y, Op: token.GEQ, Y: be0.X, OpPos: be0.OpPos}
+				}
+				// the bound may be a local defined once as int(AbortIndex)
+				if be0 != nil {
+					if bv := usedVar(info, be0.Y); bv != nil && !bv.IsField() {
+						var defs []ast.Expr
+						ast.Inspect(fi.Decl.Body, func(m ast.Node) bool {
+							if as, ok := m.(*ast.AssignStmt); ok && len(as.Lhs) == len(as.Rhs) {
+								for i, l := range as.Lhs {
+									if usedVar(info, l) == bv {
+										defs = append(defs, as.Rhs[i])
+									}
+								}
+							}
+							return true
+						})
+						if len(defs) == 1 {
+							be0 = &ast.BinaryExpr{X: be0.X, Op: be0.Op, Y: defs[0], OpPos: be0.OpPos}
+						}
+					}
 				}
 				if be, ok := be0, be0 != nil; ok && be.Op == token.GEQ && usesConst(info, be.Y, ac) && isConstInt(info, be.Y, int(av)) && terminates(is.Body) {
 					if es, ok := is.Body.List[len(is.Body.List)-1].(*ast.ExprStmt); ok {
